@@ -809,7 +809,9 @@ def library_stack_events(acc, r, n):
         acc.count("libstack_stacks")
         acc.case(["ls", stackkit.sel_name(sel), enc, sorted((k_, str(v)) for k_, v in props.items())], nontrivial=True)
         ok = True
-        ups = [("verif.neutral", {}), (YowNetworkLayer.EVENT_STATE_CONNECTED, {}), (YowNetworkLayer.EVENT_STATE_DISCONNECTED, {"reason": "x"}), ("verif.neutral2", {"a": 1})]
+        # (a connection attempt that fails announces 'disconnected' without any 'connected' before it: twice in a row happens)
+        ups = [("verif.neutral", {}), (YowNetworkLayer.EVENT_STATE_CONNECTED, {}), (YowNetworkLayer.EVENT_STATE_DISCONNECTED, {"reason": "x"}), ("verif.neutral2", {"a": 1}),
+               (YowNetworkLayer.EVENT_STATE_DISCONNECTED, {"reason": "y"}), (YowNetworkLayer.EVENT_STATE_DISCONNECTED, {"reason": "z"})]
         r.shuffle(ups)
         for name, args in ups:
             kit.clear()
